@@ -436,3 +436,42 @@ Definition normalize_attrs (a : attrs) : attrs :=
   | Some s => if starts_us s then a2 else attr_set a_surf (normalize_token s) a2
   | None => a2
   end.
+
+(* ---------- boolean equalities (used by the correspondence cases) ---------- *)
+Fixpoint list_eqb {A} (eqb : A -> A -> bool) (a b : list A) : bool :=
+  match a, b with
+  | [], [] => true
+  | x :: a', y :: b' => eqb x y && list_eqb eqb a' b'
+  | _, _ => false
+  end.
+Definition kv_eqb (a b : text * text) : bool := text_eqb (fst a) (fst b) && text_eqb (snd a) (snd b).
+Definition attrs_eqb : attrs -> attrs -> bool := list_eqb kv_eqb.
+Fixpoint elem_eqb (a b : elem) : bool :=
+  match a, b with
+  | El t1 a1 k1, El t2 a2 k2 =>
+      text_eqb t1 t2 && attrs_eqb a1 a2 &&
+      (fix go (l1 l2 : list elem) : bool :=
+         match l1, l2 with
+         | [], [] => true
+         | x :: r1, y :: r2 => elem_eqb x y && go r1 r2
+         | _, _ => false
+         end) k1 k2
+  end.
+Fixpoint tree_eqb (a b : tree) : bool :=
+  match a, b with
+  | Leaf c tok o s, Leaf c' tok' o' s' => cat_eqb c c' && attrs_eqb tok tok' && text_eqb o o' && text_eqb s s'
+  | Un c o s t, Un c' o' s' t' => cat_eqb c c' && text_eqb o o' && text_eqb s s' && tree_eqb t t'
+  | Bin c o s h l r, Bin c' o' s' h' l' r' =>
+      cat_eqb c c' && text_eqb o o' && text_eqb s s' && Bool.eqb h h' && tree_eqb l l' && tree_eqb r r'
+  | _, _ => false
+  end.
+Definition opt_eqb {A} (eqb : A -> A -> bool) (a b : option A) : bool :=
+  match a, b with Some x, Some y => eqb x y | None, None => true | _, _ => false end.
+Definition rr_eqb (a b : reader_result) : bool :=
+  text_eqb (fst (fst a)) (fst (fst b)) && list_eqb attrs_eqb (snd (fst a)) (snd (fst b)) && tree_eqb (snd a) (snd b).
+(* a finite table standing for guess_combinator_by_triplet on the triples the implementation asked for *)
+Definition guess_of (tab : list (cat * cat * cat * (text * text * bool))) (c l r : cat) : text * text * bool :=
+  match find (fun e => match e with (c', l', r', _) => cat_eqb c c' && cat_eqb l l' && cat_eqb r r' end) tab with
+  | Some (_, _, _, res) => res
+  | None => ([63], [63], true)
+  end.
